@@ -51,7 +51,9 @@ impl Focus {
             },
             Focus::C05 => match clause {
                 "mem-bound" | "mem-count" | "oversize-displaced" | "oversize-cached" | "estimator" => true,
-                "order" => info.mem_evicted && cfg.policy != Policy::Random,
+                // victim order only for the documented weights: under the extreme ones the
+                // scores are infinite or NaN and every victim is as good as another
+                "order" => info.mem_evicted && cfg.policy != Policy::Random && cfg.frequency_weight.map(|w| (0.05..=10.0).contains(&w)).unwrap_or(true),
                 _ => false,
             },
             Focus::C06 => matches!(clause, "served-expired" | "expired-not-purged" | "miss-present" | "get-changed-store"),
@@ -74,7 +76,9 @@ pub enum CoreOp {
     Clear,
 }
 
-pub const FW_TABLE: [Option<f64>; 6] = [None, Some(0.1), Some(0.3), Some(1.0), Some(1.5), Some(3.0)];
+/// the first six are the documented range (C08); the last three are legal extremes whose
+/// powers overflow to infinity or collapse to 1 (bounds and panics only: C04, C05, C16)
+pub const FW_TABLE: [Option<f64>; 9] = [None, Some(0.1), Some(0.3), Some(1.0), Some(1.5), Some(3.0), Some(2000.0), Some(f64::MAX), Some(1e-300)];
 
 #[derive(Clone, Debug, Hash, PartialEq, Serialize)]
 pub struct CoreCase {
@@ -172,22 +176,23 @@ impl CoreCase {
             limit: self.limit,
             ttl: self.ttl,
             max_memory: self.max_memory,
-            frequency_weight: FW_TABLE[self.fw_idx as usize % 6],
+            frequency_weight: FW_TABLE[self.fw_idx as usize % FW_TABLE.len()],
         }
     }
 }
 
 pub const MEM_SIZES: [usize; 6] = [64, 128, 256, 512, 1024, 4096];
+pub const HUGE_TTLS: [u64; 5] = [u64::MAX, 1 << 63, (1 << 63) - 1, u64::MAX / 1_000_000_000, 1 << 40];
 
 /// C16 cell table: every (flavour, policy+weight, limit, ttl, max_memory) combination.
 pub fn c16_cells() -> Vec<(Flavour2, Policy2, u8, Option<usize>, Option<u64>, Option<usize>)> {
     let mut v = Vec::new();
     for f in 0..3 {
         for p in 0..6 {
-            let fws: &[u8] = if p == 5 { &[0, 1, 2, 3, 4, 5] } else { &[0] };
+            let fws: &[u8] = if p == 5 { &[0, 1, 2, 3, 4, 5, 6, 7, 8] } else { &[0] };
             for &fw in fws {
                 for limit in [None, Some(1usize), Some(2), Some(3), Some(4)] {
-                    for ttl in [None, Some(0u64), Some(1), Some(2), Some(3)] {
+                    for ttl in [None, Some(0u64), Some(1), Some(2), Some(3), Some(1u64 << 63), Some(u64::MAX)] {
                         for mem in [None, Some(40usize), Some(120), Some(4096)] {
                             v.push((Flavour2::from_idx(f), Policy2::from_idx(p), fw, limit, ttl, mem));
                         }
@@ -204,7 +209,9 @@ fn dec_val(d: &mut Dec, max_memory: Option<usize>, salt: u16) -> ValDesc {
     match max_memory {
         Some(m) => {
             let m16 = m.min(60000) as u16;
-            let (size, target_fp) = match d.weighted(&[3, 3, 3, 2, 3, 2, 1, 2]) {
+            let (size, target_fp) = match d.weighted(&[3, 3, 3, 2, 3, 2, 1, 2, 3, 2]) {
+                8 => (m16 / 5, true),
+                9 => (m16 / 6 + d.choose(8) as u16, true),
                 0 => (d.choose(9) as u16, false),
                 1 => (m16 / 4, true),
                 2 => (m16 / 2, true),
@@ -243,6 +250,7 @@ pub fn decode(bytes: &[u8], focus: Focus, tier: Tier) -> CoreCase {
     let mut fw_idx: u8 = 0;
     let mut phase_ns: i64 = 0;
     let b_fw = d.choose(6) as u8;
+    let b_fwx = d.choose(9) as u8;
     let b_phase = d.choose(4);
     let b_cell = d.choose16(65536);
     let b_mem = d.choose(6);
@@ -251,7 +259,7 @@ pub fn decode(bytes: &[u8], focus: Focus, tier: Tier) -> CoreCase {
     match focus {
         Focus::C01 | Focus::C15 => {
             if policy == Policy2::Tlru {
-                fw_idx = b_fw;
+                fw_idx = b_fwx;
             }
         }
         Focus::C03 => {
@@ -261,15 +269,22 @@ pub fn decode(bytes: &[u8], focus: Focus, tier: Tier) -> CoreCase {
         }
         Focus::C04 => {
             limit = Some(1 + b_lim);
+            if policy == Policy2::Tlru {
+                fw_idx = b_fwx;
+            }
         }
         Focus::C05 => {
             max_memory = Some(MEM_SIZES[b_mem]);
             if policy == Policy2::Tlru {
-                fw_idx = b_fw;
+                fw_idx = b_fwx;
             }
         }
         Focus::C06 => {
             ttl = Some(1 + (b_ttl % 3) as u64);
+            if b_cell % 8 == 7 {
+                // legal extreme values: nothing stored under them ever expires in a test's lifetime
+                ttl = Some(HUGE_TTLS[(b_cell >> 3) % HUGE_TTLS.len()]);
+            }
             phase_ns = [0, 250_000_000, 500_000_000, 999_999_999][b_phase];
         }
         Focus::C07 => {
@@ -287,6 +302,13 @@ pub fn decode(bytes: &[u8], focus: Focus, tier: Tier) -> CoreCase {
             ttl = [None, Some(2u64), Some(3), Some(5)][b_ttl];
             if policy == Policy2::Tlru {
                 fw_idx = b_fw;
+            }
+            if b_mem % 2 == 0 {
+                // memory pressure with many small residents: one store evicts several entries
+                max_memory = Some(MEM_SIZES[2 + b_mem / 2]);
+                if b_lim >= 2 {
+                    limit = None;
+                }
             }
             if limit.is_none() && max_memory.is_none() {
                 limit = Some(1 + b_lim);
@@ -312,7 +334,7 @@ pub fn decode(bytes: &[u8], focus: Focus, tier: Tier) -> CoreCase {
     };
     let n_ops = 5 + d.choose(max_ops);
     let is_result = vtype == 4;
-    let t_ns = ttl.map(|t| t as i64 * SEC);
+    let t_ns = ttl.map(crate::model::ttl_ns);
     // op weights: get, put, putresult, advance, clear
     let w: [u32; 5] = match focus {
         Focus::C06 => [10, 8, 1, 9, 0],
@@ -338,7 +360,17 @@ pub fn decode(bytes: &[u8], focus: Focus, tier: Tier) -> CoreCase {
             kind = 0;
         }
         let op = match kind {
-            0 => CoreOp::Get { k: d.choose(n_keys as usize) as u8 },
+            0 => {
+                let k = d.choose(n_keys as usize) as u8;
+                // now and then the same lookup many times in a row (counters that wrap or saturate)
+                if d.chance(1, 14) {
+                    let n = [4usize, 16, 99, 254, 255, 256, 300][d.choose(7)];
+                    for _ in 0..n {
+                        ops.push(CoreOp::Get { k });
+                    }
+                }
+                CoreOp::Get { k }
+            }
             1 => CoreOp::Put { k: d.choose(n_keys as usize) as u8, v: dec_val(&mut d, max_memory, salt) },
             2 => CoreOp::PutResult { k: d.choose(n_keys as usize) as u8, v: dec_val(&mut d, max_memory, salt) },
             3 => {
@@ -347,6 +379,7 @@ pub fn decode(bytes: &[u8], focus: Focus, tier: Tier) -> CoreCase {
                     Focus::C05 | Focus::C07 => [SEC, 2 * SEC][d.choose(2)],
                     _ => {
                         let t = t_ns.unwrap_or(SEC);
+                        let t = if t > 1000 * SEC { 3 * SEC } else { t };
                         [SEC, 250_000_000, t - SEC, t - 1, t, t + 1, t + SEC, 1, 500_000_000, 999_999_999][d.choose(10)].max(0)
                     }
                 };
@@ -363,7 +396,7 @@ pub fn describe(bytes: &[u8], focus: Focus, tier: Tier) -> Value {
     let c = decode(bytes, focus, tier);
     let mut v = serde_json::to_value(&c).unwrap_or(Value::Null);
     v["value_type"] = json!(VTYPE_NAMES[c.vtype as usize % 8]);
-    v["frequency_weight"] = json!(FW_TABLE[c.fw_idx as usize % 6]);
+    v["frequency_weight"] = json!(FW_TABLE[c.fw_idx as usize % FW_TABLE.len()]);
     v
 }
 
